@@ -177,6 +177,60 @@ def run(res, tier="quick", seed=0, widen=False):
             res.violations.append(dict(sig=dict(level="api", kind=kind, layout=by_groups, what="wrong-window"), case=case, observed=str(list(zip(out.index.tolist(), got))),
                                        expected=str(exp_show), what="GroupBy.rolling_* differs from the sliding-window definition"))
 
+    # ---- magnitudes: a large value that has left the window must leave no trace in the sums that follow
+    # (running sums updated by add / subtract keep the rounding error of everything that ever passed through)
+    U = Fraction(1, 2**53)
+    OUT = [1e16, -1e16, 1e8 + 0.1, float(2**60), 3e12 + 0.25, -7e15]
+    SMALL = [1.0, 2.5, -3.0, 0.5, 0.1, 0.7, 4.0]
+    for t in range(200 if tier == "quick" else 2000):
+        L = rng.randint(3, 16)
+        codes = [rng.choice([0, 0, 0, 1, 1, -1]) for _ in range(L)]
+        vals = [None if rng.random() < 0.1 else (rng.choice(OUT) if rng.random() < 0.2 else rng.choice(SMALL)) for _ in range(L)]
+        kind = rng.choice(["sum", "mean"])
+        window = rng.randint(1, 4)
+        mp = rng.randint(1, window)
+        amask = None if rng.random() < 0.7 else [rng.random() < 0.7 for _ in range(L)]
+        case = dict(level="api", stream="magnitudes", kind=kind, codes=codes, values=vals, window=window, min_periods=mp, mask=amask)
+        res.note_case(repr(case), True)
+        res.count("stream", "magnitudes")
+        if t % 67 == 0:
+            res.sample(case)
+        keys = np.array([np.nan if c < 0 else float(c) for c in codes])
+        arr = np.array([np.nan if v is None else v for v in vals])
+        try:
+            out = getattr(GroupBy(keys), "rolling_" + kind)(arr, window=window, min_periods=mp, mask=None if amask is None else np.array(amask, dtype=bool))
+        except Exception as e:  # noqa: BLE001
+            res.violations.append(dict(sig=dict(level="api", stream="magnitudes", what="raised", exc=type(e).__name__), case=case, observed=repr(e)[:300], expected="a result", what="GroupBy.rolling_* raised"))
+            continue
+        got = out.tolist()
+        bad = []
+        hist = {0: [], 1: []}
+        for i in range(L):
+            g = codes[i]
+            if g < 0 or (amask is not None and not amask[i]):
+                continue
+            hist[g].append(vals[i])
+            win = [Fraction(v) for v in hist[g][-window:] if v is not None]
+            if len(win) < mp:
+                want = None
+            else:
+                want = sum(win, Fraction(0)) / (len(win) if kind == "mean" else 1)
+            gi = got[i]
+            if want is None or gi is None or gi != gi:
+                if (want is None) != (gi is None or gi != gi):
+                    bad.append((i, gi, want))
+                continue
+            # a correctly rounded sum of the window, with head-room: 8 u * (sum of |x| over the window); the history may
+            # contribute second-order terms only
+            absw = sum((abs(x) for x in win), Fraction(0)) / (len(win) if kind == "mean" else 1)
+            past = sum((abs(Fraction(v)) for v in hist[g] if v is not None), Fraction(0))
+            tol = 8 * U * absw + 64 * U * U * len(hist[g]) * past
+            if abs(Fraction(gi) - want) > tol:
+                bad.append((i, gi, float(want)))
+        if bad:
+            res.violations.append(dict(sig=dict(level="api", stream="magnitudes", kind=kind, what="drift"), case=case, observed=str([(b[0], b[1]) for b in bad]), expected=str([(b[0], b[2]) for b in bad]),
+                                       what="rolling " + kind + " differs from the sum of the values in the window by more than the rounding of that sum (a value that left the window still shows)"))
+
     # ---- very long windows
     for window in ([32767, 32768, 40000] if tier == "thorough" else [32768]):
         n = window + 50
